@@ -42,3 +42,13 @@ pub open spec fn la_ok(d: DfaCore, cls: Cls, tid: TerminalID, rest: Seq<char>) -
 pub open spec fn cand(d: DfaCore, cls: Cls, text: Seq<char>, l: int, tid: TerminalID) -> bool {
     1 <= l <= text.len() && acc(d, cls, text.take(l), tid) && la_ok(d, cls, tid, text.skip(l))
 }
+
+/// priority of a token type: the first position at which it occurs in the automaton's list of token types (pattern order)
+pub open spec fn is_prio(ids: Seq<TerminalID>, tid: TerminalID, r: int) -> bool {
+    0 <= r < ids.len() && ids[r] == tid && forall|j: int| 0 <= j < r ==> ids[j] != tid
+}
+
+pub open spec fn prio(d: DfaCore, tid: TerminalID) -> int {
+    choose|r: int| is_prio(d.terminal_ids@, tid, r)
+}
+
